@@ -7,8 +7,12 @@
 (* concurrent phase, the programs, and for every thread its answers in the *)
 (* first and in the last repetition.                                       *)
 (* Checked on every run line:                                              *)
-(*   Frame        pre = post = the projection logged when the mesh was     *)
-(*                built (a const query is a stuttering step)               *)
+(*   Frame        pre (the reference copy) = post (the object the threads  *)
+(*                shared, after the run) = the projection logged when the  *)
+(*                mesh was built (a const query is a stuttering step).     *)
+(*                The shared object is built freshly for every case and is *)
+(*                not queried before the threads start: the single-        *)
+(*                threaded answers come from the reference copy.           *)
 (*   Determinism  every answer of every thread equals the single-threaded  *)
 (*                answer to the same query; the single-threaded answers    *)
 (*                before and after are the same                            *)
@@ -28,7 +32,11 @@ Tr == ndJsonDeserialize(IOEnv.TRACE)
 VARIABLES l, nbad, nchk, ndrift, cur, alph, fresh
 tvars == <<l, nbad, nchk, ndrift, cur, alph, fresh>>
 
+RunFields == {"case", "threads", "pre", "post", "seq", "seq2", "progs", "first", "last"}
+Has(rec, f) == f \in DOMAIN rec
+
 RunCheck(ln, M, A, doEval) ==
+  IF ~(RunFields \subseteq DOMAIN ln) THEN [bad |-> {"C20:GarbledRecord"}, chk |-> 0, drift |-> {}] ELSE
   LET T == ln.threads
       used == UNION {Rng(ln.progs[t]) : t \in 1 .. T}
       ans(i) == ln.seq[i + 1]
@@ -62,6 +70,10 @@ TNext ==
             /\ ndrift' = ndrift + Cardinality(r.drift)
             /\ fresh' = FALSE
             /\ UNCHANGED <<cur, alph>>
+       [] ln.e = "crash" /\ ~({"case", "phase", "status", "seq_replay_ok"} \subseteq DOMAIN ln) ->
+            /\ PrintT(<<"VXBAD", l, IF Has(ln, "case") THEN ln.case ELSE -1, 0, "C20:GarbledRecord">>)
+            /\ nbad' = nbad + 1
+            /\ UNCHANGED <<nchk, ndrift, cur, alph, fresh>>
        [] ln.e = "crash" ->
             \* the forked case died.  The executor and the programs are in contract, the single-threaded
             \* reference run of the same queries had completed (phase >= 2) and the same programs run to
